@@ -13,7 +13,7 @@ with tempfile.TemporaryDirectory(prefix="verif_genc13_") as t:
             continue
         meta = json.load(open(os.path.join(t, "lifted_%s.json" % kind)))
         base = {"kind": "U", "generate": ["tools/lift_registry.py", kind, "{tmp}"], "gen_sources": ["lifted_%s.c" % kind], "sources": ["src/genericregistry.c"],
-                "verif_sources": [], "cbmc": ["--unwind", str(max(len(meta["names"]) + 3, max(len(x) for x in meta["names"]) + 3))], "timeout": 900}
+                "verif_sources": [], "cbmc": ["--unwind", str(max(len(meta["names"]), max(len(x) for x in meta["names"])) + 20)], "timeout": 900}
         r = dict(base); r.update({"id": "C13.%s.align" % kind, "defines": ["H_ALIGN"], "timeout": 300,
                   "what": "lifted %s tables, ALL 2^%d build configurations at once: at every index the name is bound to its own implementation; one sentinel more names than pointers" % (kind, len(meta["guards"])),
                   "replay": "c13_config", "functions": [], "must_fire": ["the name at every index is bound to its own implementation", "exactly one more entry"]})
